@@ -175,7 +175,7 @@ CLAIMED = {
                  "but that quotient or 0; lemma: for data generated from the model (measured = model*f, 1e-3 <= f <= 1e3) the update is the quotient - the "
                  "generating factors are a fixed point up to the rounding of one product and one quotient (that rounding bound itself: IEEE, not proved). "
                  "Not decided: apply/un-apply of efficiencies / geometric / block factors (float), iterate_efficiencies, the sums around the element "
-                 "update, KL descent of the ML iterations, the loops around the maps; the FanProjData constructor IS under contract (its index ranges are the reader contracts), the GeoData3D / BlockData3D constructors are not."),
+                 "update, KL descent of the ML iterations, the loops around the maps; the FanProjData and GeoData3D constructors, GeoData3D::is_in_data and operator() ARE under contract (index ranges = reader contracts, element addressed inside them); BlockData3D / DetPairData are not."),
         "note": ("trusted: cbmc 6.11.0 + kissat; IndexRange/Array grow deliver the requested ranges (C11); bin <-> detector "
                  "pair maps are C01"),
     },
